@@ -57,14 +57,16 @@ def iv (i : Iv) : List Tok := [if i.star then .plus else .minus, .name i.name]
 /-- `frozenset` of interventions in `_sort_interventions` order -/
 def normIvs (is : List Iv) : List Iv := sortBy Iv.lt (dedup' is)
 
+/-- the ` @ …` suffix of `CounterfactualVariable.to_y0`: one intervention bare, several in parentheses -/
+def ivsToks : List Iv → List Tok
+  | [] => []
+  | [i] => .at :: iv i
+  | is => .at :: .lpar :: sepBy .comma (is.map iv) ++ [.rpar]
+
 /-- `Variable.to_y0` / `CounterfactualVariable.to_y0`:
 `{sign}{name}`, `{sign}{name} @ {iv}`, `{sign}{name} @ ({iv}, {iv}, …)` -/
 def var (v : Var) : List Tok :=
-  sign v.star ++ .name v.name ::
-    (match normIvs v.ivs with
-     | [] => []
-     | [i] => .at :: iv i
-     | is => .at :: .lpar :: sepBy .comma (is.map iv) ++ [.rpar])
+  sign v.star ++ .name v.name :: ivsToks (normIvs v.ivs)
 
 /-- `_list_to_y0` -/
 def vars (vs : List Var) : List Tok := sepBy .comma (vs.map var)
@@ -138,6 +140,26 @@ end
 
 /-- `str(e)` as tokens -/
 def expr (e : Expr) : List Tok := exprM .full e
+
+/-! ### printable expressions
+
+`wf e` is what the dataclasses' `__post_init__` checks guarantee for every constructed object (a distribution has
+a child, a product has two or more factors, a sum has ranges, Q factors are over something) plus: no factor of a
+product is itself a product (true of everything the operators build: every `__mul__` overload flattens). -/
+
+mutual
+def wf : Expr → Bool
+  | .prob _ c _ => !c.isEmpty
+  | .prod fs => decide (2 ≤ fs.length) && wfFactors fs
+  | .sum e rs => !rs.isEmpty && wf e
+  | .frac n d => wf n && wf d
+  | .one => true
+  | .zero => true
+  | .q dom cod => !dom.isEmpty && !cod.isEmpty
+def wfFactors : List Expr → Bool
+  | [] => true
+  | f :: fs => wf f && !isProd f && wfFactors fs
+end
 
 end Print
 end Y0
